@@ -25,6 +25,14 @@ Proof. induction l; destruct i; simpl; intros; try congruence. f_equal; auto. Qe
 Lemma upd_upd : forall A (l : list A) i x y, upd (upd l i x) i y = upd l i y.
 Proof. induction l; destruct i; simpl; intros; auto. f_equal; auto. Qed.
 
+Lemma nth_error_upd_some : forall A (l : list A) i j x y,
+  nth_error (upd l i x) j = Some y -> (i = j /\ y = x) \/ (i <> j /\ nth_error l j = Some y).
+Proof.
+  induction l as [|a l IH]; intros i j x y H; destruct i, j; simpl in *; try discriminate; auto.
+  - inversion H; auto.
+  - destruct (IH _ _ _ _ H) as [[? ?]|[? ?]]; [left|right]; split; auto.
+Qed.
+
 Lemma nth_error_map_some : forall A B (f : A -> B) l i y,
   nth_error (map f l) i = Some y -> exists x, nth_error l i = Some x /\ y = f x.
 Proof.
@@ -73,6 +81,43 @@ Qed.
 
 Lemma alone_me : forall n l, me (alone c n l) = me l.
 Proof. induction n; intros; auto. rewrite alone_S, lstep_me. auto. Qed.
+
+
+Lemma do_throw_reg : forall l e k, reg (do_throw c l e k) = reg l /\ fin (do_throw c l e k) = fin l.
+Proof.
+  intros. unfold do_throw. destruct (1 <=? depth (exc l)); [destruct (land e (depth (exc l)) k) as [[? ?]|]|]; auto.
+Qed.
+
+Definition own (l : lstate) : Prop := forall o, In o (reg l) \/ In o (fin l) -> fst o = me l.
+
+Lemma lstep_own : forall l, own l -> own (lstep c l).
+Proof.
+  intros l O. unfold own. rewrite lstep_me. unfold lstep.
+  destruct (done l || fatal l); auto.
+  assert (T : forall e k o, In o (reg (do_throw c l e k)) \/ In o (fin (do_throw c l e k)) -> fst o = me l).
+  { intros e k o. destruct (do_throw_reg l e k) as [-> ->]. apply O. }
+  assert (T' : forall x e k o, In o (reg (do_throw c (set_exc l x) e k)) \/ In o (fin (do_throw c (set_exc l x) e k)) -> fst o = me l).
+  { intros x e k o. destruct (do_throw_reg (set_exc l x) e k) as [-> ->]. apply O. }
+  destruct (code l) as [|[o| | |] k].
+  - simpl. intros o [[]|H]. apply in_app_or in H. destruct H; [|apply in_rev in H]; auto.
+  - destruct o; simpl; auto;
+      repeat match goal with |- context[match ?x with _ => _ end] => destruct x end; simpl; auto;
+      try (intros ? ?; eapply T; eassumption).
+    + intros o [[<-|H]|H]; auto.
+    + intros o [H|H].
+      * apply filter_In in H. destruct H; auto.
+      * apply in_app_or in H. destruct H; auto. apply in_rev in H. apply filter_In in H. destruct H; auto.
+  - repeat match goal with |- context[match ?x with _ => _ end] => destruct x end; simpl; auto;
+      try (intros ? ?; eapply T'; eassumption).
+  - simpl. auto.
+  - simpl. auto.
+Qed.
+
+Lemma alone_own : forall n l, own l -> own (alone c n l).
+Proof. induction n; intros; auto. rewrite alone_S. apply lstep_own; auto. Qed.
+
+Lemma linit_own : forall t p, own (linit t p).
+Proof. intros t p o [[]|[]]. Qed.
 
 End Local.
 
@@ -152,4 +197,310 @@ Proof.
   - apply ADV. eapply pre_store; eauto.
 Qed.
 
+(* ------------------------------------------------------------------ isolation *)
+Definition pc (g : gstate) : list (lstate * nat) := map (fun ls => (fst ls, steps (snd ls))) (thr g).
+
+Lemma pc_set_thr_same : forall g u lu su su', nth_error (thr g) u = Some (lu, su) -> steps su' = steps su ->
+  pc (set_thr g u (lu, su')) = pc g.
+Proof.
+  intros. unfold pc, set_thr; simpl. rewrite map_upd. simpl. apply upd_same.
+  rewrite nth_error_map, H. simpl. rewrite H0. reflexivity.
+Qed.
+
+Lemma pre_pc : forall t g l s g1 s1, pre t g l s g1 s1 -> pc g1 = pc g /\ steps s1 = steps s.
+Proof.
+  intros. inversion H; subst; simpl; auto; split; auto; eapply pc_set_thr_same; eauto.
+Qed.
+
+Lemma shape_pc : forall t g g', shape t g g' ->
+  pc g' = pc g \/ exists l n, nth_error (pc g) t = Some (l, n) /\ pc g' = upd (pc g) t (lstep c l, S n).
+Proof.
+  intros. inversion H; subst; auto.
+  - left. eapply pc_set_thr_same; eauto.
+  - right. exists l, (steps s). split.
+    + unfold pc. rewrite nth_error_map, H0. reflexivity.
+    + destruct (pre_pc _ _ _ _ _ _ H6) as [E1 E2].
+      unfold advance; simpl. unfold pc at 1; simpl. rewrite map_upd. simpl. rewrite E2.
+      fold (pc g1). rewrite E1. reflexivity.
+Qed.
+
+Definition iso_inv (ps : list (list op)) (g : gstate) : Prop :=
+  forall t l n, nth_error (pc g) t = Some (l, n) ->
+    exists p, nth_error ps t = Some p /\ l = alone c n (linit t p).
+
+Lemma init_from_nth : forall ps k t,
+  nth_error (init_from k ps) t = option_map (fun p => (linit (k + t) p, sinit (k + t =? 0))) (nth_error ps t).
+Proof.
+  induction ps; intros; destruct t; simpl; auto.
+  - rewrite Nat.add_0_r. reflexivity.
+  - rewrite IHps. replace (S k + t) with (k + S t) by lia. reflexivity.
+Qed.
+
+Lemma iso_init : forall ps, iso_inv ps (ginit ps).
+Proof.
+  intros ps t l n H. unfold pc, ginit in H; simpl in H.
+  rewrite nth_error_map, init_from_nth in H. simpl in H.
+  destruct (nth_error ps t) eqn:E; simpl in H; inversion H; subst. eauto.
+Qed.
+
+Lemma iso_step : forall ps t g, iso_inv ps g -> iso_inv ps (G t g).
+Proof.
+  intros ps t g I. destruct (shape_pc _ _ _ (gstep_shape t g)) as [E|[l [n [Hn E]]]]; unfold iso_inv; rewrite E; auto.
+  intros t' l' n' H. destruct (Nat.eq_dec t t').
+  - subst t'. rewrite nth_error_upd_eq in H.
+    + inversion H; subst. destruct (I _ _ _ Hn) as [p [Hp Hl]]. exists p. split; auto.
+      rewrite alone_S. congruence.
+    + apply nth_error_Some. congruence.
+  - rewrite nth_error_upd_ne in H; auto.
+Qed.
+
+Lemma iso_run : forall ps sched g, iso_inv ps g -> iso_inv ps (R sched g).
+Proof. induction sched; simpl; intros; auto. apply IHsched. apply iso_step; auto. Qed.
+
+(* For EVERY schedule: the core of every thread (continuation, collector registry and finalisation
+   ledger, exception record, thread-local storage, result trace) is what the thread reaches on its
+   own after the same number of its own instructions. *)
+Theorem isolation_core : forall ps sched t l s,
+  nth_error (thr (R sched (ginit ps))) t = Some (l, s) ->
+  exists p, nth_error ps t = Some p /\ l = alone c (steps s) (linit t p).
+Proof.
+  intros. apply (iso_run ps sched _ (iso_init ps) t l (steps s)).
+  unfold pc. rewrite nth_error_map, H. reflexivity.
+Qed.
+
+(* a finished thread has computed exactly its complete stand-alone trace *)
+Theorem isolation_finished : forall ps sched t l s,
+  nth_error (thr (R sched (ginit ps))) t = Some (l, s) -> done l = true ->
+  exists p, nth_error ps t = Some p /\ forall n, steps s <= n -> alone c n (linit t p) = l.
+Proof.
+  intros. destruct (isolation_core _ _ _ _ _ H) as [p [Hp Hl]]. exists p. split; auto.
+  intros. subst l. apply alone_final; auto.
+Qed.
+
+Lemma pc_fst : forall g, map fst (pc g) = map fst (thr g).
+Proof. intros. unfold pc. rewrite map_map. apply map_ext. reflexivity. Qed.
+
+(* frame: an instruction of t never changes the core of another thread *)
+Theorem step_frame : forall t t' g, t <> t' -> core (G t g) t' = core g t'.
+Proof.
+  intros. unfold core. rewrite <- !nth_error_map, <- !pc_fst.
+  destruct (shape_pc _ _ _ (gstep_shape t g)) as [E|[l [n [Hn E]]]]; rewrite E; auto.
+  rewrite map_upd. apply nth_error_upd_ne; auto.
+Qed.
+
+(* no thread's collector ever finalises (or even registers) an object allocated by another thread *)
+Theorem no_foreign_finalisation : forall ps sched t l s o,
+  nth_error (thr (R sched (ginit ps))) t = Some (l, s) ->
+  In o (reg l) \/ In o (fin l) -> fst o = t.
+Proof.
+  intros. destruct (isolation_core _ _ _ _ _ H) as [p [Hp Hl]].
+  assert (O : own l) by (subst l; apply alone_own, linit_own).
+  rewrite (O o H0). subst l. rewrite alone_me. reflexivity.
+Qed.
+
+(* ------------------------------------------------------------------ lookups after a step *)
+Lemma adv_lookup : forall g1 t l s1 t' l' s',
+  nth_error (thr (advance c false g1 t l s1)) t' = Some (l', s') ->
+  (t' = t /\ l' = lstep c l /\ s' = bump s1) \/ (t' <> t /\ nth_error (thr g1) t' = Some (l', s')).
+Proof.
+  intros. unfold advance in H; simpl in H. apply nth_error_upd_some in H.
+  destruct H as [[? E]|[? ?]]; [left|right]; auto. inversion E; auto.
+Qed.
+
+Lemma set_thr_lookup : forall g u x t' y,
+  nth_error (thr (set_thr g u x)) t' = Some y ->
+  (t' = u /\ y = x) \/ (t' <> u /\ nth_error (thr g) t' = Some y).
+Proof.
+  intros. unfold set_thr in H; simpl in H. apply nth_error_upd_some in H.
+  destruct H as [[? E]|[? ?]]; [left|right]; auto.
+Qed.
+
+(* ------------------------------------------------------------------ mutual exclusion *)
+Definition mx_inv (g : gstate) : Prop :=
+  forall t l s m, nth_error (thr g) t = Some (l, s) -> In m (holding s) -> mtx g m = Some t.
+
+Lemma rem_mid_in : forall m m' h, In m (rem_mid m' h) -> m <> m' /\ In m h.
+Proof.
+  intros. unfold rem_mid in H. apply filter_In in H. destruct H as [H1 H2].
+  apply negb_true_iff, Nat.eqb_neq in H2. auto.
+Qed.
+
+Lemma mx_step : b = false -> forall t g, mx_inv g -> mx_inv (G t g).
+Proof.
+  intros Hb t g I. destruct (gstep_shape t g) as [|l s Ht|l s g1 s1 Ht Hab Hst Hdo Hfa Hub P]; auto.
+  - intros t' l' s' m H Hin. apply set_thr_lookup in H. destruct H as [[-> E]|[Hne H]].
+    + inversion E; subst. simpl in Hin. eapply I; eauto.
+    + eapply I; eauto.
+  - intros t' l' s' m H Hin. apply adv_lookup in H.
+    inversion P; subst; simpl in *; try congruence;
+      destruct H as [[-> [-> ->]]|[Hne H]]; simpl in *;
+      try (eapply I; eauto; fail).
+    + (* acquire, t itself *) unfold fupd. destruct Hin as [<-|Hin].
+      * rewrite Nat.eqb_refl. reflexivity.
+      * destruct (m =? m0); auto. eapply I; eauto.
+    + (* acquire, another thread *) unfold fupd. destruct (m =? m0) eqn:E.
+      * apply Nat.eqb_eq in E; subst m0. rewrite (I _ _ _ _ H Hin) in H0. discriminate.
+      * eapply I; eauto.
+    + (* release, t itself *) apply rem_mid_in in Hin. destruct Hin as [Hne Hin]. unfold fupd.
+      apply Nat.eqb_neq in Hne. rewrite Hne. eapply I; eauto.
+    + (* release, another thread *) unfold fupd. destruct (m =? m0) eqn:E.
+      * apply Nat.eqb_eq in E; subst m0. rewrite (I _ _ _ _ H Hin) in H0. congruence.
+      * eapply I; eauto.
+    + (* spawn: another thread's flag *) apply set_thr_lookup in H. destruct H as [[-> E]|[? H]].
+      * inversion E; subst. simpl in Hin. eapply I; eauto.
+      * eapply I; eauto.
+    + apply set_thr_lookup in H. destruct H as [[-> E]|[? H]].
+      * inversion E; subst. simpl in Hin. eapply I; eauto.
+      * eapply I; eauto.
+Qed.
+
+Lemma mx_init : forall ps, mx_inv (ginit ps).
+Proof.
+  intros ps t l s m H Hin. unfold ginit in H; simpl in H. rewrite init_from_nth in H.
+  destruct (nth_error ps t); simpl in H; inversion H; subst. destruct Hin.
+Qed.
+
+Lemma mx_run : b = false -> forall sched g, mx_inv g -> mx_inv (R sched g).
+Proof. intros Hb. induction sched; simpl; intros; auto. apply IHsched, mx_step; auto. Qed.
+
+(* For EVERY schedule and every lock / trylock / unlock / with pattern: two threads never hold the
+   same mutex at the same time (holding = acquired by lock, successful trylock or with-entry and
+   not yet released), provided Mutex_Trylock answers false on EBUSY. *)
+Theorem mutex_exclusion_gen : b = false -> forall ps sched t1 t2 l1 s1 l2 s2 m,
+  nth_error (thr (R sched (ginit ps))) t1 = Some (l1, s1) ->
+  nth_error (thr (R sched (ginit ps))) t2 = Some (l2, s2) ->
+  In m (holding s1) -> In m (holding s2) -> t1 = t2.
+Proof.
+  intros Hb ps sched t1 t2 l1 s1 l2 s2 m H1 H2 I1 I2.
+  pose proof (mx_run Hb sched _ (mx_init ps)) as I.
+  pose proof (I _ _ _ _ H1 I1). pose proof (I _ _ _ _ H2 I2). congruence.
+Qed.
+
+(* ------------------------------------------------------------------ join *)
+Definition jn_inv (g : gstate) : Prop :=
+  forall u lu su, nth_error (thr g) u = Some (lu, su) -> joined su = true -> done lu = true.
+
+Lemma pre_joined : forall t g l s g1 s1, pre t g l s g1 s1 -> joined s1 = joined s.
+Proof. intros. inversion H; subst; reflexivity. Qed.
+
+Lemma jn_step : forall t g, jn_inv g -> jn_inv (G t g).
+Proof.
+  intros t g I. destruct (gstep_shape t g) as [|l s Ht|l s g1 s1 Ht Hab Hst Hdo Hfa Hub P]; auto.
+  - intros u lu su H Hj. apply set_thr_lookup in H. destruct H as [[-> E]|[Hne H]].
+    + inversion E; subst. simpl in Hj. eapply I; eauto.
+    + eapply I; eauto.
+  - intros u lu su H Hj. apply adv_lookup in H. destruct H as [[-> [-> ->]]|[Hne H]].
+    + simpl in Hj. change (joined (bump s1)) with (joined s1) in Hj. rewrite (pre_joined _ _ _ _ _ _ P) in Hj.
+      rewrite (I _ _ _ Ht Hj) in Hdo. discriminate.
+    + inversion P; subst; try (eapply I; eauto; fail).
+      * apply set_thr_lookup in H. destruct H as [[-> E]|[? H]].
+        -- inversion E; subst. simpl in Hj. eapply I; eauto.
+        -- eapply I; eauto.
+      * apply set_thr_lookup in H. destruct H as [[-> E]|[? H]].
+        -- inversion E; subst. auto.
+        -- eapply I; eauto.
+Qed.
+
+Lemma jn_init : forall ps, jn_inv (ginit ps).
+Proof.
+  intros ps u lu su H Hj. unfold ginit in H; simpl in H. rewrite init_from_nth in H.
+  destruct (nth_error ps u); simpl in H; inversion H; subst. discriminate.
+Qed.
+
+Lemma jn_run : forall sched g, jn_inv g -> jn_inv (R sched g).
+Proof. induction sched; simpl; intros; auto. apply IHsched, jn_step; auto. Qed.
+
+(* join returns only after the joined thread's function has finished (and its collector is gone) *)
+Theorem join_waits : forall ps sched u lu su,
+  nth_error (thr (R sched (ginit ps))) u = Some (lu, su) -> joined su = true -> done lu = true.
+Proof. intros. eapply (jn_run sched _ (jn_init ps)); eauto. Qed.
+
+(* a finished thread's core never changes again *)
+Lemma done_stable_step : forall t g u lu, core g u = Some lu -> done lu = true -> core (G t g) u = Some lu.
+Proof.
+  intros t g u lu H Hd. destruct (Nat.eq_dec t u) as [->|Hne]; [|rewrite step_frame; auto].
+  unfold core in *. rewrite <- nth_error_map, <- pc_fst in *.
+  destruct (shape_pc _ _ _ (gstep_shape u g)) as [E|[l [n [Hn E]]]]; rewrite E; auto.
+  rewrite map_upd. simpl.
+  assert (l = lu). { rewrite nth_error_map, Hn in H. simpl in H. congruence. }
+  subst l. rewrite lstep_done; auto. rewrite upd_same; auto.
+Qed.
+
+Lemma done_stable : forall sched g u lu, core g u = Some lu -> done lu = true -> core (R sched g) u = Some lu.
+Proof. induction sched; simpl; intros; auto. apply IHsched; auto. apply done_stable_step; auto. Qed.
+
+(* join publishes: once a join(u) has returned, whatever any thread reads from u afterwards (at any
+   later point of any schedule) is u's complete stand-alone result trace *)
+Theorem join_publishes_gen : forall ps sched sched' t u lu su p l s k,
+  nth_error (thr (R sched (ginit ps))) u = Some (lu, su) -> joined su = true ->
+  nth_error ps u = Some p ->
+  let g' := R sched' (R sched (ginit ps)) in
+  nth_error (thr g') t = Some (l, s) ->
+  aborted g' = false -> started s = true -> done l = false -> fatal l = false -> ub s = false ->
+  code l = KOp (OPeek u) :: k ->
+  done lu = true /\
+  (forall n, steps su <= n -> alone c n (linit u p) = lu) /\
+  option_map (fun ls => seen (snd ls)) (nth_error (thr (G t g')) t) = Some ((u, out lu) :: seen s).
+Proof.
+  intros ps sched sched' t u lu su p l s k Hu Hj Hp g' Ht Hab Hst Hdo Hfa Hub Hc.
+  assert (Hd : done lu = true) by (eapply join_waits; eauto).
+  split; auto. split.
+  - destruct (isolation_finished _ _ _ _ _ Hu Hd) as [p' [Hp' F]]. assert (p' = p) by congruence. subst p'. exact F.
+  - assert (Hu' : core g' u = Some lu).
+    { apply done_stable; auto. unfold core. rewrite Hu. reflexivity. }
+    unfold core in Hu'. destruct (nth_error (thr g') u) as [[lu' su']|] eqn:Eu; simpl in Hu'; inversion Hu'; subst lu'.
+    unfold gstep. rewrite Hab, Ht, Hst, Hdo, Hfa, Hub. simpl. rewrite Hc, Eu.
+    unfold advance; simpl. rewrite nth_error_upd_eq.
+    + reflexivity.
+    + apply nth_error_Some. congruence.
+Qed.
+
 End Machine.
+
+(* ------------------------------------------------------------------ the variants that do NOT work *)
+(* one process-wide exception record (shared_exc = true): two threads with a try block each disturb
+   each other — thread 2's final exception depth differs from its stand-alone run *)
+Definition ps_shared : list (list op) :=
+  [[OSpawn 1; OSpawn 2]; [OTry [OObs] [] []]; [OTry [OObs] [] []]].
+Definition sched_shared : list tid := [0; 0; 1; 2].
+
+(* after thread 1 and thread 2 have each entered their try block, thread 2's exception depth is 2,
+   on its own it is 1 *)
+Lemma isolation_refuted_shared : forall c b,
+  exists ps sched t,
+    match nth_error (thr (run c b true sched (ginit ps))) t, nth_error ps t with
+    | Some (l, s), Some p => depth (exc l) =? depth (exc (alone c (steps s) (linit t p))) = false
+    | _, _ => False
+    end.
+Proof.
+  intros. exists ps_shared, sched_shared, 2. destruct c, b; vm_compute; reflexivity.
+Qed.
+
+(* Mutex_Trylock answering true on EBUSY: two threads hold the same mutex *)
+Lemma exclusion_refuted_busy_true : forall c,
+  exists ps sched l1 s1 l2 s2 m,
+    nth_error (thr (run c true false sched (ginit ps))) 0 = Some (l1, s1) /\
+    nth_error (thr (run c true false sched (ginit ps))) 1 = Some (l2, s2) /\
+    In m (holding s1) /\ In m (holding s2).
+Proof.
+  intros. exists [[OSpawn 1; OTrySpin 0; OYield]; [OTrySpin 0; OYield]], [0; 0; 1].
+  destruct c; vm_compute; do 4 eexists; exists 0; (split; [reflexivity|split; [reflexivity|split; left; reflexivity]]).
+Qed.
+
+(* ------------------------------------------------------------------ tie to the source (Generated.v) *)
+(* the mutable file-scope statics of Thread.c / Exception.c / GC.c are exactly the audited ones:
+   the TLS key and its created-flag (written before any Thread exists: the main macro's new_raw(GC)
+   calls current(Thread)), and the main thread's Thread/Exception singletons (written by the main
+   thread only).  No per-thread datum lives in a static. *)
+Import String.
+Definition audited_statics : list String.string :=
+  ["Thread.Thread_TLS_Key_Created"; "Thread.Thread_Key_Wrapper"; "Thread.Thread_Main"; "Thread.Exception_Main"]%string.
+
+Lemma statics_audited : thr_statics = audited_statics.
+Proof. reflexivity. Qed.
+
+Lemma source_shapes :
+  thr_exc_via_tls = true /\ thr_gc_via_tls = true /\ thr_current_via_key = true /\
+  thr_init_own_records = true /\ thr_join_waits = true /\ thr_with_is_lock_unlock = true /\
+  thr_trylock_busy_result = false.
+Proof. repeat split; reflexivity. Qed.
